@@ -63,11 +63,16 @@ CHANNELS = [(rpc.CONTROL_PUBSUB, rpc.PROXY_CONTROL_PUBSUB),
 class _Reg(object):
     '''per-side registry: local bridges are private, proxy bridges shared'''
 
-    def __init__(self, side):
-        self.side = side
+    def __init__(self, side, fail_at=None):
+        self.side    = side
+        self.lookups = 0
+        self.fail_at = fail_at      # this lookup fails once (registry hiccup)
 
     def __getitem__(self, key):
         # 'bridges.<channel>.addr_pub|addr_sub'
+        self.lookups += 1
+        if self.fail_at and self.lookups == self.fail_at:
+            raise KeyError('registry lookup failed (transient): %s' % key)
         _, chan, what = key.split('.')
         if chan.startswith('proxy_'):
             return 'mem://proxy/%s' % chan
@@ -78,21 +83,29 @@ class _Reg(object):
 
 class Network(object):
 
-    def __init__(self, sides, seed):
+    def __init__(self, sides, seed, fault=None):
         self.net   = memzmq.install(memzmq.Net(seed=seed, mode='pumped'))
         self.sides = sides
         self.seen  = {s: {c[0]: [] for c in CHANNELS} for s in sides}
         self.sessions = dict()
+        self.refused  = None
         for side in sides:
             s = rp.Session.__new__(rp.Session)
             s._cfg     = ru.Config(from_dict={'path': '/tmp'})
-            s._reg     = _Reg(side)
+            s._reg     = _Reg(side, fail_at=fault[1] if fault and
+                                            fault[0] == side else None)
             s._module  = side
             s._log     = NullLog()
             s._prof    = NullProf()
             s._role    = s._PRIMARY if side == 'client' else s._AGENT_0
             s._to_stop = list()
-            s._crosswire_proxy()                       # the real closures
+            try:
+                s._crosswire_proxy()                   # the real closures
+            except Exception as e:
+                # a side which cannot wire itself does not start (its process
+                # ends, and its forwarders with it)
+                self.refused = (side, repr(e))
+                return
             self.sessions[side] = s
             for chan, _ in CHANNELS:
                 def cb(topic, msg, side=side, chan=chan):
@@ -224,8 +237,13 @@ def run_cells(ctx, res):
 
 
 def run_case(res, case):
-    nw = Network(case['sides'], case['seed'])
+    nw = Network(case['sides'], case['seed'], fault=case.get('wire_fault'))
     try:
+        if nw.refused:
+            res.count('wiring_refused_after_fault')
+            return
+        if case.get('wire_fault'):
+            res.count('wired_despite_fault')
         sent = dict()
         for i, (side, chan, flag, origin) in enumerate(case['msgs']):
             mid = 'm%d' % i
@@ -473,8 +491,14 @@ def run(ctx):
                                      'unknown', 'rpc_req', 'rpc_res',
                                      'component_start'])])
             pumps[str(j)] = rng.randint(0, 4)
-        run_case(res, {'sides': sides, 'msgs': msgs, 'pumps': pumps,
-                       'seed': rng.randint(0, 2 ** 30)})
+        case = {'sides': sides, 'msgs': msgs, 'pumps': pumps,
+                'seed': rng.randint(0, 2 ** 30)}
+        if rng.random() < 0.2:
+            # one registry lookup of one side fails once while it wires itself
+            # (8 lookups per side): the side refuses to start - or, if the
+            # code recovers, every rule still holds
+            case['wire_fault'] = [rng.choice(sides), rng.randint(1, 8)]
+        run_case(res, case)
         if len(res.violations) > 30:
             break
     return res
